@@ -3,6 +3,7 @@ package rules
 import (
 	"fmt"
 	"go/ast"
+	"go/constant"
 	"go/token"
 	"go/types"
 	"sort"
@@ -405,6 +406,8 @@ func RuleP1(c *Ctx) {
 				sc.Holds(key, pos, "re-panic of a recovered non-error value inside the recover handler")
 			case inDefaultOfExhaustiveSwitch(c, pk, fd, call):
 				sc.Holds(key, pos, "default arm of a switch that lists every declared constant (X1)")
+			case beyondCompleteTable(c, pk, fd, call):
+				sc.Holds(key, pos, "reached only for a value beyond a table that has an element for every declared constant of the type (the table form of X1)")
 			case isEmptyGuardPanic(info, fd, call):
 				// panics when a container is empty: discharge by role
 				ok, why := c.dischargeEmptyPanic(pk, fd, obj, m, pds, merr)
@@ -437,6 +440,47 @@ func RuleP1(c *Ctx) {
 func inRecoverHandler(info *types.Info, fd *ast.FuncDecl, call *ast.CallExpr) bool {
 	// inside a deferred func literal that calls recover(), and the panic argument is the recovered value
 	found := false
+	// ... or in a named handler (meant to be deferred directly): the argument is the value
+	// recover() gave this very function, so a panic was in flight already
+	if aid, ok := ast.Unparen(call.Args[0]).(*ast.Ident); ok && len(call.Args) == 1 {
+		inLit := false
+		ast.Inspect(fd.Body, func(n ast.Node) bool {
+			if lit, ok := n.(*ast.FuncLit); ok && lit.Pos() <= call.Pos() && call.End() <= lit.End() {
+				inLit = true
+			}
+			return true
+		})
+		if !inLit {
+			defs := 0
+			fromRecover := false
+			inspectNoLit(fd.Body, func(n ast.Node) bool {
+				as, ok := n.(*ast.AssignStmt)
+				if !ok {
+					return true
+				}
+				for i, l := range as.Lhs {
+					lid, ok := l.(*ast.Ident)
+					if !ok || info.ObjectOf(lid) != info.ObjectOf(aid) {
+						continue
+					}
+					defs++
+					if len(as.Lhs) == len(as.Rhs) {
+						if rc, ok := ast.Unparen(as.Rhs[i]).(*ast.CallExpr); ok {
+							if rid, ok := rc.Fun.(*ast.Ident); ok {
+								if b, ok := info.ObjectOf(rid).(*types.Builtin); ok && b.Name() == "recover" {
+									fromRecover = true
+								}
+							}
+						}
+					}
+				}
+				return true
+			})
+			if defs == 1 && fromRecover {
+				return true
+			}
+		}
+	}
 	ast.Inspect(fd.Body, func(n ast.Node) bool {
 		d, ok := n.(*ast.DeferStmt)
 		if !ok {
@@ -491,6 +535,87 @@ func inDefaultOfExhaustiveSwitch(c *Ctx, pk *pkgT, fd *ast.FuncDecl, call *ast.C
 	return res
 }
 
+// beyondCompleteTable: the panic is reached only under `int(e) >= len(T)` where e is of a
+// repository enumeration type and T is a package-level array with an element for every
+// declared constant of that type (all of them lie in [0, len(T))).
+func beyondCompleteTable(c *Ctx, pk *pkgT, fd *ast.FuncDecl, call *ast.CallExpr) bool {
+	info := pk.TypesInfo
+	cf := c.CFG(pk, fd.Body)
+	gen := func(fa cfgx.Fact) bool {
+		be, ok := ast.Unparen(fa.Expr).(*ast.BinaryExpr)
+		if !ok {
+			return false
+		}
+		x, y, op := be.X, be.Y, be.Op
+		if !fa.Truth {
+			switch op {
+			case token.LSS:
+				op = token.GEQ
+			case token.LEQ:
+				op = token.GTR
+			default:
+				return false
+			}
+		}
+		// normalise to  e >= len(T)
+		switch op {
+		case token.GEQ:
+		case token.LEQ:
+			x, y = y, x
+		default:
+			return false
+		}
+		lenOf, isLen := lengthExpr(info, cf.Resolve(y))
+		if !isLen {
+			return false
+		}
+		tid, ok := ast.Unparen(lenOf).(*ast.Ident)
+		if !ok {
+			return false
+		}
+		tab, ok := info.ObjectOf(tid).(*types.Var)
+		if !ok || tab.Pkg() == nil || tab.Parent() != tab.Pkg().Scope() {
+			return false
+		}
+		arr, ok := tab.Type().Underlying().(*types.Array)
+		if !ok {
+			return false
+		}
+		// e, possibly under a conversion to an integer type
+		ex := ast.Unparen(cf.Resolve(x))
+		if conv, ok := ex.(*ast.CallExpr); ok && len(conv.Args) == 1 {
+			if tv, ok := info.Types[conv.Fun]; ok && tv.IsType() {
+				ex = ast.Unparen(conv.Args[0])
+			}
+		}
+		named, ok := info.TypeOf(ex).(*types.Named)
+		if !ok || named.Obj().Pkg() == nil {
+			return false
+		}
+		var declPk *pkgT
+		for _, p := range c.P.Repo {
+			if p.Types == named.Obj().Pkg() {
+				declPk = p
+			}
+		}
+		if declPk == nil {
+			return false
+		}
+		consts := EnumConsts(declPk, named)
+		if len(consts) < 2 {
+			return false
+		}
+		for _, k := range consts {
+			v, exact := constant.Int64Val(constant.ToInt(k.Val()))
+			if !exact || v < 0 || v >= arr.Len() {
+				return false
+			}
+		}
+		return true
+	}
+	return cf.MustAt(call, gen, nil, nil)
+}
+
 // isEmptyGuardPanic: panic inside `if <len var> == 0 { panic(...) }`.
 func isEmptyGuardPanic(info *types.Info, fd *ast.FuncDecl, call *ast.CallExpr) bool {
 	res := false
@@ -505,7 +630,15 @@ func isEmptyGuardPanic(info *types.Info, fd *ast.FuncDecl, call *ast.CallExpr) b
 		}
 		return true
 	})
-	return res
+	if res {
+		return true
+	}
+	// the guard in any other shape: on every path to the panic the container is known to be empty
+	cf := cfgx.New(fd.Body, info)
+	return cf.MustAt(call, func(fa cfgx.Fact) bool {
+		_, _, empty := lenFactR(info, fa, cf.Resolve)
+		return empty
+	}, nil, nil)
 }
 
 func isErrorRepanic(info *types.Info, call *ast.CallExpr) bool {
@@ -658,13 +791,27 @@ func isCountdownOverLen(info *types.Info, l *ast.ForStmt) bool {
 // callersOutside returns a description of a caller of f (transitively through
 // methods of the same receiver type) that allowed() rejects, or "".
 func (c *Ctx) callersOutside(f *types.Func, allowed func(*types.Func) bool) string {
-	for _, cs := range c.callSitesOf(f) {
-		caller := declObj(cs)
-		if caller == nil || !allowed(caller) {
-			return fmt.Sprintf("%s at %s", c.P.DeclName(cs.Decl), c.P.Pos(cs.Call.Pos()))
+	seen := map[*types.Func]bool{}
+	var walk func(f *types.Func) string
+	walk = func(f *types.Func) string {
+		if seen[f] {
+			return ""
 		}
+		seen[f] = true
+		for _, cs := range c.callSitesOf(f) {
+			caller := declObj(cs)
+			if caller == nil || !allowed(caller) {
+				return fmt.Sprintf("%s at %s", c.P.DeclName(cs.Decl), c.P.Pos(cs.Call.Pos()))
+			}
+			if recvNamedOf(caller) != nil && recvNamedOf(caller) == recvNamedOf(f) {
+				if bad := walk(caller); bad != "" {
+					return bad
+				}
+			}
+		}
+		return ""
 	}
-	return ""
+	return walk(f)
 }
 
 func recvNamedOf(f *types.Func) *types.Named {
